@@ -115,8 +115,8 @@ int main(int argc, char** argv) {
       else if (!strcmp(how, "stack"))  { o = (T == Half) ? sH : (T == Float) ? sF : (T == String) ? sS : (T == Tuple) ? sT : sI; if (T != Int && T != Float && T != String && T != Tuple && T != Half) wantT = Int; wantcls = "stack"; }
       else if (!strcmp(how, "copy"))   { var src = (T == String) ? sS : (T == Float) ? sF : sI; o = copy(src); wantT = type_of(src); reg = 1; }
       else if (!strcmp(how, "static")) { o = T; wantT = Type; wantcls = "static"; }
-      else if (!strcmp(how, "aelem"))  { keep1 = new(Array, ET, MK(ET), MK(ET)); o = get(keep1, $I(1)); wantT = ET; wantcls = "data"; }
-      else if (!strcmp(how, "lelem"))  { keep1 = new(List, ET, MK(ET), MK(ET)); o = get(keep1, $I(1)); wantT = ET; wantcls = "data"; }
+      else if (!strcmp(how, "aelem"))  { keep1 = new(Array, ET, MK(ET), MK(ET), MK(ET)); o = get(keep1, $I(1)); wantT = ET; wantcls = "data"; }
+      else if (!strcmp(how, "lelem"))  { keep1 = new(List, ET, MK(ET), MK(ET), MK(ET)); o = get(keep1, $I(1)); wantT = ET; wantcls = "data"; }
       else if (!strcmp(how, "tkey"))   { keep1 = new(Table, ET, Int, MK(ET), $I(1)); o = iter_init(keep1); wantT = ET; wantcls = "data"; }
       else if (!strcmp(how, "tval"))   { keep1 = new(Table, Int, ET, $I(1), MK(ET)); o = get(keep1, $I(1)); wantT = ET; wantcls = "data"; }
       else if (!strcmp(how, "rkey"))   { keep1 = new(Tree, ET, Int, MK(ET), $I(1)); o = iter_init(keep1); wantT = ET; wantcls = "data"; }
@@ -133,7 +133,7 @@ int main(int argc, char** argv) {
         wantT = ET; wantcls = "data";
       }
       else if (!strcmp(how, "uitem"))  { keep2 = new(Int, $I(9)); keep1 = new(Tuple, keep2); o = get(keep1, $I(0)); wantT = Int; wantcls = "heap"; reg = 1; }
-      else if (!strcmp(how, "it_array")) { keep1 = new(Array, ET, MK(ET), MK(ET)); o = iter_next(keep1, iter_init(keep1)); wantT = ET; wantcls = "data"; }
+      else if (!strcmp(how, "it_array")) { keep1 = new(Array, ET, MK(ET), MK(ET), MK(ET)); o = iter_next(keep1, iter_init(keep1)); wantT = ET; wantcls = "data"; }
       else if (!strcmp(how, "it_list"))  { keep1 = new(List, ET, MK(ET), MK(ET)); o = iter_last(keep1); wantT = ET; wantcls = "data"; }
       else if (!strcmp(how, "it_table")) { keep1 = new(Table, ET, ET, MK(ET), MK(ET)); o = iter_last(keep1); wantT = ET; wantcls = "data"; }
       else if (!strcmp(how, "it_tree"))  { keep1 = new(Tree, ET, ET, MK(ET), MK(ET)); o = iter_last(keep1); wantT = ET; wantcls = "data"; }
@@ -151,11 +151,11 @@ int main(int argc, char** argv) {
     ev_int("alloc", (o && !hc_exc[0]) ? (long long)(intptr_t)header(o)->alloc : 0); ev_str("wantcls", wantcls); ev_int("reg", reg);
     int us = (o && !hc_exc[0] && tt == wantT) ? usable(o, tt) : 0;
     if (us && keep1 && (!strcmp(how, "aelem") || !strcmp(how, "lelem") || !strcmp(how, "it_array"))) {
-      /* writing every byte of this element must not touch its neighbour */
-      var nb = get(keep1, $I(0)); size_t n = size(tt) <= 64 ? size(tt) : 64;
-      unsigned char a[64], save[64]; memcpy(a, nb, n); memcpy(save, o, n);
+      /* writing every byte of this element (the middle one of three) must not touch its neighbours on either side */
+      var nb = get(keep1, $I(0)), nc = get(keep1, $I(2)); size_t n = size(tt) <= 64 ? size(tt) : 64;
+      unsigned char a[64], c[64], save[64]; memcpy(a, nb, n); memcpy(c, nc, n); memcpy(save, o, n);
       memset(o, 0x5C, n);
-      if (memcmp(a, nb, n) != 0 || type_of(nb) != tt) us = 0;
+      if (memcmp(a, nb, n) != 0 || header(nb)->type != tt || memcmp(c, nc, n) != 0 || header(nc)->type != tt) us = 0;
       memcpy(o, save, n);
     }
     if (us && keep1 && strlen(how) == 6 && how[1] == '_') {
